@@ -1,1 +1,228 @@
-From SimSync Require Import SimSync Sched.
+(* Properties_C18.v -- C18: simulated cameras deliver fresh, increasing, trigger-gated frames; stop unblocks.
+
+   Model: SimSync.v -- one transition per block between two scheduling points of the streamer thread
+   (simulated_camera_streamer_thread), the caller (simcam_get_frame behind camera_get_frame) and the controller
+   (start / stop / execute_trigger / set behind the HAL wrappers), over any number of runs of one device, for the code
+   WITH fixes/01-simcam-start-clears-stale-trigger.patch (c_fix9 = true: simcam_start clears software_trigger.triggered).
+
+     reach c cs    the state after ANY schedule cs : list Tid (any length; choices that are not enabled are skipped)
+                   from the initial state of ANY configuration c (initial trigger enable, spurious wake-ups allowed or
+                   not, any controller script over start/stop/trigger/set e/set d/pause, any caller script)
+     labels c cs   the labels of the steps taken (scheduling point left, events = return codes and delivered ids)
+
+   Ghost fields of the state (C18_ghost_is_trace says they are functions of the observable events alone):
+     deliv   hardware ids handed out by get_frame in the current run, newest first      gen   frames generated (++frame_id)
+     ext     external triggers that reached the device in the current run                      in the current run
+     gated   frame_start.enable was 1 at the start of the current run and no set has switched it off since
+     fbuf    generation index (0-based, within the current run) of the frame held by im.frame_data
+
+   Every theorem is for all configurations, all schedules of all lengths (invariant + induction, no bound).
+   Liveness (C18_stop_unblocks) is bounded progress; that enabled threads are eventually scheduled is assumed. *)
+From Coq Require Import ZArith List Bool Lia Sorted.
+From SimSync Require Import Sched SimSync SimSyncProofs SimSyncThms.
+Import ListNotations.
+Local Open Scope Z_scope.
+
+(* The ghost fields are what an observer computes from the events of the trace (sets returned, starts returned,
+   forwarded triggers returned, frames handed out): they add no information of their own. *)
+Theorem C18_ghost_is_trace : forall c cs,
+  (enable (reach c cs), gated (reach c cs), ext (reach c cs), deliv (reach c cs)) =
+  fold_left lab_obs (labels c cs) (c_enable c, false, 0, []).
+Proof. exact ghost_is_trace. Qed.
+Print Assumptions C18_ghost_is_trace.
+
+(* Within a run the delivered hardware ids are strictly increasing (newest first: strictly decreasing list), hence no
+   frame is handed out twice; and every step that hands out a frame returns Device_Ok with an id that is >= 0 and larger
+   than every id handed out before in this run. *)
+Theorem C18_increasing : forall c cs, c_fix9 c = true ->
+  let s := reach c cs in
+  StronglySorted Z.gt (deliv s) /\
+  forall t s' l rc id, step s t = Some (s', l) -> In (EvGet rc true id) (l_evs l) ->
+    rc = 0 /\ 0 <= id /\ Forall (fun d => d < id) (deliv s) /\ deliv s' = id :: deliv s.
+Proof. exact increasing_reach. Qed.
+Print Assumptions C18_increasing.
+
+(* The id counts every frame the camera generated: the published id and the frame in frame_data both carry the
+   generation index fbuf (number of frames generated before it in this run), the streamer's counter is gen - 1, and a
+   delivered frame's id is exactly that index -- so a gap in the delivered ids is a generated frame nobody fetched. *)
+Theorem C18_counts_all : forall c cs, c_fix9 c = true ->
+  let s := reach c cs in
+  (spc s <> SNone -> fid s = fbuf s /\ fbuf s <= gen s - 1) /\
+  (s_inited (spc s) -> sloc s = gen s - 1) /\
+  (forall t s' l rc id, step s t = Some (s', l) -> In (EvGet rc true id) (l_evs l) ->
+     id = fbuf s /\ 0 <= id <= gen s - 1) /\
+  Forall (fun d => 0 <= d <= gen s - 1) (deliv s).
+Proof. exact counts_all_reach. Qed.
+Print Assumptions C18_counts_all.
+
+(* ... where fbuf is maintained by the publishing block: the frame just generated (index gen - 1) is swapped into
+   frame_data and published under the id gen - 1. *)
+Theorem C18_counts_all_publish : forall c cs s' l, c_fix9 c = true ->
+  let s := reach c cs in
+  spc s = SLock2 -> step s Str = Some (s', l) ->
+  fid s' = gen s - 1 /\ fbuf s' = gen s - 1 /\ gen s' = gen s /\ wanted s' = false.
+Proof. exact publish_reach. Qed.
+Print Assumptions C18_counts_all_publish.
+
+(* The count restarts with each start: a successful start (only possible from Armed) empties the run's ghost
+   counters, resets the published and the last-emitted id to -1 and clears a pending trigger; by C18_counts_all every id
+   delivered afterwards is an index among the frames generated since THIS start. *)
+Theorem C18_restart : forall c cs t s' l, c_fix9 c = true ->
+  let s := reach c cs in
+  step s t = Some (s', l) -> In (EvRet KStart 0) (l_evs l) ->
+  t = Ctl /\ hal s = HArmed /\ hal s' = HRunning /\ spc s' = SCreate /\ running s' = true /\
+  gen s' = 0 /\ ext s' = 0 /\ deliv s' = [] /\ fid s' = -1 /\ last s' = -1 /\ fbuf s' = -1 /\
+  triggered s' = false /\ gated s' = enable s' /\ runs s' = runs s + 1.
+Proof. exact restart_reach. Qed.
+Print Assumptions C18_restart.
+
+(* With the software frame trigger enabled for the whole run: never more frames delivered than external triggers of
+   this run, none before the first one; moreover frames generated + a pending trigger <= external triggers (+ 1 for the
+   trigger that stop itself fires to release the streamer, once stop has done so). *)
+Theorem C18_gated : forall c cs, c_fix9 c = true ->
+  let s := reach c cs in
+  gated s = true ->
+  enable s = true /\
+  Z.of_nat (length (deliv s)) <= ext s /\
+  (ext s = 0 -> deliv s = []) /\
+  gen s + b2z (triggered s) <= ext s + slack s.
+Proof. exact gated_reach. Qed.
+Print Assumptions C18_gated.
+
+(* ... and, step-wise: a delivery in a gated run happens only after at least one more external trigger than frames
+   already delivered. *)
+Theorem C18_gated_no_frame_before_trigger : forall c cs t s' l rc id, c_fix9 c = true ->
+  let s := reach c cs in
+  gated s = true -> step s t = Some (s', l) -> In (EvGet rc true id) (l_evs l) ->
+  1 <= ext s /\ Z.of_nat (length (deliv s)) + 1 <= ext s.
+Proof. exact gated_first. Qed.
+Print Assumptions C18_gated_no_frame_before_trigger.
+
+(* Stop always returns (bounded progress, spurious wake-ups allowed).  Once stop has been invoked on a running camera
+   (in_stop: is_running is already 0):
+     - the measure mu (<= 12) strictly decreases on every non-spurious step of the controller, of the streamer, and of
+       the caller while it is inside get_frame (Dstop); a spurious wake-up raises it by at most 1; other steps leave it;
+     - some designated thread is enabled for a reason other than a spurious wake-up (no deadlock);
+     - hence ANY continuation cs' (any threads, any order, any length) in which the designated threads take more than
+       mu s + (number of spurious wake-ups) non-spurious steps contains the return of stop. *)
+Theorem C18_stop_unblocks : forall c cs, c_fix9 c = true ->
+  let s := reach c cs in
+  in_stop s = true ->
+  running s = false /\ (mu s <= 12)%nat /\
+  (exists t s' l, Dstop s t = true /\ step s t = Some (s', l) /\ l_spurious l = false) /\
+  (forall cs', (mu s + snd (stop_tally s cs') < fst (stop_tally s cs'))%nat ->
+               exists n, in_stop (reach c (cs ++ firstn n cs')) = false).
+Proof. exact stop_unblocks_reach. Qed.
+Print Assumptions C18_stop_unblocks.
+
+(* the step that ends stop is the controller's, returns Device_Ok, and leaves the HAL state Armed with the thread joined *)
+Theorem C18_stop_return_step : forall s t s' l, step s t = Some (s', l) -> in_stop s = true -> in_stop s' = false ->
+  t = Ctl /\ In (EvRet KStop 0) (l_evs l) /\ hal s' = HArmed /\ live s' = false.
+Proof. exact stop_return_step. Qed.
+Print Assumptions C18_stop_return_step.
+
+(* Stop unblocks a pending frame call.  Whenever is_running is 0 (from the first block of stop until the next start) a
+   caller inside get_frame is never asleep un-notified, nor between its check and its sleep, unless the controller is
+   still at the lock acquisition that precedes its notify (which the caller's own next step then enables); and every step
+   it takes from its lock acquisition or from its wait (spurious or not) RETURNS, through the shutdown exit: Device_Ok,
+   buffer and info untouched, nothing delivered. *)
+Theorem C18_stop_releases_caller : forall c cs, c_fix9 c = true ->
+  let s := reach c cs in
+  running s = false ->
+  (cpc s = CPre -> kpc s = KStopLock) /\
+  (cpc s = CWait -> cnot s = false -> kpc s = KStopLock) /\
+  (forall s' l, cpc s = CLock \/ cpc s = CWait -> step s Cal = Some (s', l) ->
+     l_evs l = [EvGet 0 false (-1)] /\ deliv s' = deliv s /\ cpc s' = cnext (cscript s)).
+Proof. exact caller_released_reach. Qed.
+Print Assumptions C18_stop_releases_caller.
+
+(* ------------------------------------------------------------------------------------------------------------------
+   Non-vacuity: reachable, non-trivial states that meet the hypotheses (vm_compute over one schedule is a test of the
+   examples, not the theorems). *)
+Definition K := Ctl.  Definition C := Cal.  Definition R := Str.
+
+(* a gated run with two external triggers and two deliveries (ids 0, 1), then stop invoked with a third get_frame asleep *)
+Definition cfg_gated : Config := mkConfig true false true [KStart; KTrig; KTrig; KStop; KPause; KPause; KPause] [CGet; CGet; CGet].
+Definition sch_gated : list Tid :=
+  [K;K;C;C;C;C;R;R;R;K;K;R;R;R;C;C;C;C;R;R;K;K;R;R;R;C].
+
+Example ex_gated_two_deliveries :
+  let s := reach cfg_gated sch_gated in
+  gated s = true /\ running s = true /\ deliv s = [1; 0] /\ ext s = 2 /\ gen s = 2 /\ fbuf s = 1.
+Proof. vm_compute. repeat split. Qed.
+
+(* the delivery step itself: hypotheses of C18_increasing / C18_counts_all / C18_gated_no_frame_before_trigger *)
+Example ex_delivery_step :
+  let s := reach cfg_gated (firstn 25 sch_gated) in
+  gated s = true /\ deliv s = [0] /\ ext s = 2 /\
+  exists s' l, step s Cal = Some (s', l) /\ In (EvGet 0 true 1) (l_evs l).
+Proof. vm_compute. repeat split. do 2 eexists. split; [reflexivity|left; reflexivity]. Qed.
+
+(* the publishing step: hypothesis of C18_counts_all_publish *)
+Example ex_publish_step :
+  let s := reach cfg_gated (firstn 24 sch_gated) in
+  spc s = SLock2 /\ gen s = 2 /\ exists s' l, step s Str = Some (s', l) /\ fid s' = 1.
+Proof. vm_compute. repeat split. do 2 eexists. split; reflexivity. Qed.
+
+(* stop invoked while the third get_frame is asleep on frame_ready, un-notified, and the streamer waits for a trigger:
+   hypotheses of C18_stop_unblocks and C18_stop_releases_caller; five more steps and both have returned *)
+Example ex_stop_pending :
+  let s := reach cfg_gated (sch_gated ++ [C;C;C;R;R;K]) in
+  in_stop s = true /\ running s = false /\ cpc s = CWait /\ cnot s = false /\ spc s = SWait /\ kpc s = KStopLock /\
+  mu s = 8%nat /\
+  let s2 := reach cfg_gated (sch_gated ++ [C;C;C;R;R;K] ++ [K;C;R;R;R;K]) in
+  in_stop s2 = false /\ hal s2 = HArmed /\ cpc s2 = CExit /\ deliv s2 = [1; 0].
+Proof. vm_compute. repeat split. Qed.
+
+(* the hypothesis of the progress clause: a continuation in which the designated threads take more than mu s steps
+   (here 10 > 8; stop returns with the 6th) *)
+Example ex_stop_tally :
+  let s := reach cfg_gated (sch_gated ++ [C;C;C;R;R;K]) in
+  stop_tally s [K;C;R;R;R;K;K;K;K;K] = (10%nat, 0%nat) /\
+  (mu s + snd (stop_tally s [K;C;R;R;R;K;K;K;K;K]) < fst (stop_tally s [K;C;R;R;R;K;K;K;K;K]))%nat.
+Proof. vm_compute. split; [reflexivity|]. repeat constructor. Qed.
+
+(* with spurious wake-ups allowed: the streamer wakes spuriously twice before stop's trigger and re-parks; stop still
+   returns, and the continuation meets the hypothesis 8 + 2 < 12 *)
+Definition cfg_spur : Config := mkConfig true true true [KStart; KStop; KPause; KPause; KPause] [CGet].
+Definition sch_spur : list Tid := [R;R;R;R;K;R;C;R;R;K;K;K;K;K].
+Example ex_stop_spurious :
+  let s := reach cfg_spur [K;K;C;C;C;C;R;R;R;K] in
+  in_stop s = true /\ spur s = true /\ spc s = SWait /\ snot s = false /\ mu s = 8%nat /\
+  stop_tally s sch_spur = (12%nat, 2%nat) /\
+  in_stop (reach cfg_spur ([K;K;C;C;C;C;R;R;R;K] ++ firstn 10 sch_spur)) = false.
+Proof. vm_compute. repeat split. Qed.
+
+(* restart: an un-gated run delivers id 1 (frame 0 was generated and never fetched: the id counts it), is stopped, and
+   the next run's first delivery is id 0 again: hypotheses of C18_restart (the start step) and its effect *)
+Definition cfg_restart : Config := mkConfig false false true [KStart; KStop; KStart] [CGet; CGet].
+Definition sch_restart : list Tid := [K;K;R;R;R;R;C;C;C;C;R;R;C; K;K;R;R;R;K; K;R;R;C;C;C;R;R;C].
+
+Example ex_restart :
+  let s1 := reach cfg_restart (firstn 13 sch_restart) in
+  let s2 := reach cfg_restart (firstn 19 sch_restart) in
+  let s3 := reach cfg_restart sch_restart in
+  deliv s1 = [1] /\ gen s1 = 2 /\
+  hal s2 = HArmed /\ gen s2 = 3 /\ fid s2 = 2 /\ triggered s2 = false /\
+  (exists s' l, step s2 Ctl = Some (s', l) /\ In (EvRet KStart 0) (l_evs l)) /\
+  runs s3 = 2 /\ deliv s3 = [0] /\ gen s3 = 1.
+Proof. vm_compute. repeat split. do 2 eexists. split; [reflexivity|right; left; reflexivity]. Qed.
+
+(* ------------------------------------------------------------------------------------------------------------------
+   D9.  The repair is necessary: in the model of the code BEFORE the patch (c_fix9 = false: simcam_start leaves
+   software_trigger.triggered as it was) the trigger that stop fires to release the streamer survives a streamer that
+   exits without consuming it; the next, gated, run then generates and delivers frame 0 with no external trigger at all.
+   This 17-step schedule is corpus/C18/d9_stale_trigger_after_stop.txt, which the check replays on the real code. *)
+Definition cfg_d9 (fixed : bool) : Config := mkConfig true false fixed [KStart; KStop; KStart; KStop] [CGet].
+Definition sch_d9 : list Tid := [K;K;K;K;R;R;K;K;C;C;C;C;R;R;R;R;C].
+
+Example C18_gated_refuted_before_fix :
+  let s := reach (cfg_d9 false) sch_d9 in
+  gated s = true /\ ext s = 0 /\ deliv s = [0] /\ runs s = 2.
+Proof. vm_compute. repeat split. Qed.
+
+(* the same schedule on the repaired code: the streamer of the second run waits for a trigger, nothing is delivered *)
+Example ex_d9_fixed :
+  let s := reach (cfg_d9 true) sch_d9 in
+  gated s = true /\ ext s = 0 /\ deliv s = [] /\ runs s = 2 /\ spc s = SWait /\ cpc s = CWait.
+Proof. vm_compute. repeat split. Qed.
